@@ -113,6 +113,31 @@ def minAlong (s : Shape3 Rat) (pos : Iso3 Rat) (N base : V3 Rat) : Option Rat :=
     | v :: vs => some (vs.foldl min v)
   | .halfspace _ => none
 
+def rclamp (x lo hi : Rat) : Rat := if x < lo then lo else if hi < x then hi else x
+
+/-- ball (centre `c` in world, radius `r`) against a posed cuboid: signed separation and the unit vector from the
+cuboid towards the ball (`none` on ties: centre on the boundary or equidistant from two faces). -/
+def ballCuboidSep (he : V3 Rat) (pos : Iso3 Rat) (r : Rat) (c : V3 Rat) : Option (Rat × Option (V3 Rat)) :=
+  let l := pos.invAct c
+  let cl : V3 Rat := ⟨rclamp l.x (-he.x) he.x, rclamp l.y (-he.y) he.y, rclamp l.z (-he.z) he.z⟩
+  let d := l.sub cl
+  if d.normSq > 0 then
+    let len := rsqrt d.normSq
+    some (len - r, if len * 1000000 < 1 then none else some (pos.rot (d.sdiv len)))
+  else
+    -- centre inside: depth to the nearest face
+    let dx := he.x - rabs l.x; let dy := he.y - rabs l.y; let dz := he.z - rabs l.z
+    let m := min dx (min dy dz)
+    let sgn (x : Rat) : Rat := if x < 0 then -1 else 1
+    let t : Rat := 1 / 1000000
+    let ties := (if dx ≤ m + t then 1 else 0) + (if dy ≤ m + t then 1 else 0) + (if dz ≤ m + t then 1 else (0 : Nat))
+    let n : Option (V3 Rat) :=
+      if ties ≠ 1 || m ≤ t then none
+      else if dx ≤ m then (if rabs l.x ≤ t then none else some (pos.rot ⟨sgn l.x, 0, 0⟩))
+      else if dy ≤ m then (if rabs l.y ≤ t then none else some (pos.rot ⟨0, sgn l.y, 0⟩))
+      else (if rabs l.z ≤ t then none else some (pos.rot ⟨0, 0, sgn l.z⟩))
+    some (-m - r, n)
+
 /-- Signed separation of the pair in the world frame (negative = overlap depth along the plane normal / centre
 line) and, when defined, the unit vector from shape 1 towards shape 2. `none` outside the closed-form pairs or
 for non-unit input. -/
@@ -131,6 +156,8 @@ def Pair.sep (P : Pair) : Option (Rat × Option (V3 Rat)) :=
     if !unitV n then none else
     let N := P.pos2.rot n
     (minAlong s P.pos1 N P.pos2.t).map fun v => (v, some N.neg)
+  | .cuboid he, .ball r => ballCuboidSep he P.pos1 r P.pos2.t
+  | .ball r, .cuboid he => (ballCuboidSep he P.pos2 r P.pos1.t).map fun (v, n) => (v, n.map V3.neg)
   | _, _ => none
 
 /-- world point `p` belongs to the posed shape, up to `slack` -/
